@@ -46,6 +46,9 @@ SPEC = {
         "post-conditions are proved over the reals (Mathlib rpow) for the definitions the driver executes on Float; real tensors "
         "are float64 (p-norms compared at 1e-6) or float32 (magnitude programs only; p-norms compared at 1e-4, model values at "
         "2e-5); float16 / bfloat16 targets and complex scales are not generated",
+        "integer / boolean targets are generated for Clamping only (a p-norm normalisation of an integer tensor is not "
+        "representable in its type; torch's vector_norm rejects it); fault sequences inject an exception into a probe hook's body "
+        "or remove the target tensor for the duration of one module call, the caller catches it and reinstates the attribute",
         "magnitude programs keep |x|**p inside the normal range of the tensor's type (|p| * (|log2 magnitude| + 6) <= 100 for "
         "float32, 900 for float64): underflow / overflow of the intermediate power sum inside torch's vector_norm is not exercised",
         "normalisation: the property speaks about vectors with norm >= eps and about zero vectors; 0 < norm < eps is reported in the "
@@ -949,6 +952,174 @@ def magnitude_program(rng, maxlen=10):
     return lines
 
 
+def _norm_spec(rng, shape):
+    p = rng.choice(ORDERS)
+    sc = rng.choice([1.0, 2.0, 0.5, -1.5, 3.25, 10.0])
+    eps = rng.choice([1e-12, 1e-12, 1e-12, 1e-6, 0.25])
+    a, pp, tr, ev = rng.random() < 0.5, rng.random() < 0.5, rng.random() < 0.85, rng.random() < 0.8
+    nd = rng.choice([None, 1, 1, 2]) if len(shape) > 1 else rng.choice([None, 1])
+    if nd is None:
+        dim = None
+    else:
+        dim = tuple(sorted(rng.sample(range(len(shape)), min(nd, len(shape)))))
+        if rng.random() < 0.3:
+            dim = tuple(d - len(shape) for d in dim)
+    gs = ";".join(",".join(map(str, g)) for g in groups_for(shape, dim))
+    dim_s = "N" if dim is None else ",".join(map(str, dim))
+    p_s = "inf" if p == math.inf else f2h(p)
+    return p, f"vmk norm {p_s} {f2h(sc)} {f2h(eps)} {gs} {dim_s} {b(a)} {b(pp)} {b(tr)} {b(ev)}"
+
+
+def _clamp_spec(rng):
+    lo = rng.randint(-24, 16) / 8
+    hi = lo + rng.randint(1, 24) / 8
+    r = rng.random()
+    lo_s = "N" if r < 0.2 else f2h(lo)
+    hi_s = "N" if 0.2 <= r < 0.4 else f2h(hi)
+    return (f"vmk clamp {lo_s} {hi_s} {b(rng.random() < 0.5)} {b(rng.random() < 0.5)} {b(rng.random() < 0.85)} "
+            f"{b(rng.random() < 0.8)}")
+
+
+def history_program(rng, maxlen=18):
+    """Histories in which state is reached EARLIER than the call that is judged: the watched tensor object stays in place and
+    is updated between hook runs the ways PyTorch code updates state (forward re-assigns / updates in place / updates through
+    `.data`; the caller copies in place, through `.data`, through a NumPy view, or re-assigns), and fault sequences: module
+    calls during which a hook body raises (an injected fault in a probe hook, or the value hooks finding no tensor at their
+    target) with the caller handling the exception and carrying on.  Every later call is held to the same specification."""
+    shape = rng.choice(SHAPES)
+    path = rng.choice(PATHS)
+    kind = rng.choice(["plain", "buf"])
+    style = rng.choice(["assign", "inplace", "data", "data"])
+    specs = []
+    neg = False
+    nval = rng.choice([1, 1, 2])
+    for _ in range(nval):
+        if rng.random() < 0.65:
+            p, line = _norm_spec(rng, shape)
+            neg = neg or p < 0
+            specs.append(line)
+        else:
+            specs.append(_clamp_spec(rng))
+    has_norm = any(x.startswith("vmk norm") for x in specs)
+    # forward's constant: see value_program (must not cancel normalised components up to rounding noise)
+    delta = rng.choice([0.0, 0.375, -0.8125, 2.75]) if has_norm else rng.choice([0.0, 1.0, -0.5, 2.0])
+    if neg:
+        delta = 0.0 if rng.random() < 0.5 else 2.75
+    shp = "x".join(map(str, shape))
+    lines = [f"begin {f2h(delta)} {vals_s(rand_vals(rng, shape, nonzero=neg))} {shp} {path} {kind} f64 {style}"]
+    lines += specs
+    for _ in range(rng.choice([0, 1, 1, 2])):
+        lines.append(mk_line(rng))
+    n = len(lines) - 1
+    for i in range(n):
+        if rng.random() < 0.9:
+            lines.append(f"register {i}")
+    alive = set(range(n))
+    mode = True
+    for _ in range(rng.randint(4, maxlen)):
+        r = rng.random()
+        if r < 0.34:
+            lines.append("call")
+        elif r < 0.56:
+            how = rng.choice(["set", "swap", "iset", "dset", "dset", "nset", "nset"])
+            lines.append(f"{how} {vals_s(rand_vals(rng, shape, nonzero=neg))}")
+        elif r < 0.62:
+            mode = rng.random() < 0.5
+            lines.append(f"mode {b(mode)}")
+        elif r < 0.76:
+            # a failing call: no tensor at the target, or a probe hook's body raises
+            probes = [i for i in sorted(alive) if i >= len(specs)]
+            if rng.random() < 0.3:
+                mode = rng.random() < 0.5
+            who = str(rng.choice(probes)) if probes and rng.random() < 0.6 else "N"
+            lines.append(f"fcall {who} {b(mode)}")
+        elif r < 0.86 and alive:
+            i = rng.choice(sorted(alive))
+            if i < len(specs) or rng.random() < 0.5:
+                lines.append(f"manual {i} {b(rng.random() < 0.5)} {b(rng.random() < 0.5)}")
+            else:
+                lines.append("call")
+        elif r < 0.92 and alive:
+            lines.append(f"{rng.choice(['register', 'deregister'])} {rng.choice(sorted(alive))}")
+        elif r < 0.97 and alive:
+            lines.append(f"{rng.choice(['trainexec', 'evalexec'])} {rng.choice(sorted(alive))} {b(rng.random() < 0.5)}")
+        elif alive:
+            i = rng.choice(sorted(alive))
+            alive.discard(i)
+            lines.append(f"delete {i}")
+        else:
+            lines.append("call")
+    lines.append("call")
+    return lines
+
+
+def rand_ints(rng, shape, dt):
+    numel = 1
+    for s in shape:
+        numel *= s
+    if dt == "b":
+        return [float(rng.random() < 0.5) for _ in range(numel)]
+    lo = 0 if dt == "u8" else -6
+    mode = rng.random()
+    out = []
+    for _ in range(numel):
+        if mode < 0.15:
+            v = 0
+        elif mode < 0.3:
+            v = rng.choice([0, 0, 1, lo // 3])
+        else:
+            v = rng.randint(lo, 6)
+        out.append(float(v))
+    return out
+
+
+def integer_program(rng, maxlen=12):
+    """Clamping on an integer- or boolean-typed target (spike counts, step-valued delays, masks) with integer-valued and
+    fractional bounds: after every run the attribute — whatever type it then has — lies within [min, max]"""
+    dt = rng.choice(sorted(INT_DTYPES))
+    shape = rng.choice(SHAPES)
+    path = rng.choice(PATHS)
+    kind = rng.choice(["plain", "buf"])
+    delta = rng.choice([0.0, 1.0, -0.5, 2.0])
+    specs = []
+    for _ in range(rng.choice([1, 1, 2])):
+        if rng.random() < 0.3:
+            # integer-valued bounds
+            lo = float(rng.randint(-3, 2))
+            hi = lo + rng.randint(1, 3)
+            r = rng.random()
+            lo_s = "N" if r < 0.2 else f2h(lo)
+            hi_s = "N" if 0.2 <= r < 0.4 else f2h(hi)
+            specs.append(f"vmk clamp {lo_s} {hi_s} {b(rng.random() < 0.5)} {b(rng.random() < 0.5)} {b(rng.random() < 0.85)} "
+                         f"{b(rng.random() < 0.8)}")
+        else:
+            specs.append(_clamp_spec(rng))
+    shp = "x".join(map(str, shape))
+    lines = [f"begin {f2h(delta)} {vals_s(rand_ints(rng, shape, dt))} {shp} {path} {kind} {dt}"]
+    lines += specs
+    if rng.random() < 0.3:
+        lines.append(mk_line(rng))
+    n = len(lines) - 1
+    for i in range(n):
+        if rng.random() < 0.9:
+            lines.append(f"register {i}")
+    for _ in range(rng.randint(3, maxlen)):
+        r = rng.random()
+        if r < 0.4:
+            lines.append("call")
+        elif r < 0.6:
+            lines.append(f"{'swap' if rng.random() < 0.3 else 'set'} {vals_s(rand_ints(rng, shape, dt))}")
+        elif r < 0.68:
+            lines.append(f"mode {b(rng.random() < 0.5)}")
+        elif r < 0.84:
+            lines.append(f"manual {rng.randrange(len(specs))} {b(rng.random() < 0.6)} {b(rng.random() < 0.6)}")
+        elif r < 0.92:
+            lines.append(f"{rng.choice(['register', 'deregister'])} {rng.randrange(n)}")
+        else:
+            lines.append(f"{rng.choice(['trainexec', 'evalexec'])} {rng.randrange(n)} {b(rng.random() < 0.5)}")
+    return lines
+
+
 def corpus_cases():
     from pathlib import Path
     d = Path(__file__).resolve().parent.parent.parent / "corpus" / "C16"
@@ -1017,7 +1188,11 @@ def explore(ctx) -> Exploration:
     val = [value_program(rng) for _ in range(nval)]
     nmag = 300 if not thorough else 1500
     mag = [magnitude_program(rng) for _ in range(nmag)]     # drawn after the older streams: their cases are unchanged
-    cases += rnd + val + mag
+    nhist = 300 if not thorough else 1500
+    hist = [history_program(rng) for _ in range(nhist)]      # drawn after the older streams: their cases are unchanged
+    nint = 200 if not thorough else 1000
+    ints = [integer_program(rng) for _ in range(nint)]
+    cases += rnd + val + mag + hist + ints
     for c in cases:
         for l in c:
             t = l.split()
@@ -1029,6 +1204,7 @@ def explore(ctx) -> Exploration:
                 ex.count("attr_path", t[4])
                 ex.count("attr_shape", t[3])
                 ex.count("attr_dtype", t[6] if len(t) > 6 else "f64")
+                ex.count("forward_update_style", t[7] if len(t) > 7 else "assign")
                 if len(t) > 6 and t[2] != "-":
                     top = max(abs(h2f(x)) for x in t[2].split(","))
                     ex.count("magnitude_program_initial_max_abs", "0" if top == 0 else f"2^{10 * math.floor(math.log2(top) / 10):+d}..")
@@ -1044,14 +1220,20 @@ def explore(ctx) -> Exploration:
                "seeded magnitude programs (Normalization, sometimes with Clamping, on a float32 or float64 tensor whose elements are "
                "k/8 * 2**e with e from -34..20 (float32) / -80..30 (float64), one or two magnitudes mixed per tensor, eps from 1e-12 "
                "(default) down to 2**-100, norm orders restricted so that |x|**p stays inside the type's normal range; every vector "
-               "with norm >= eps is held to norm == |scale| at 1e-4 (float32) / 1e-6 (float64), re-assigned mid-run by set / swap); a "
+               "with norm >= eps is held to norm == |scale| at 1e-4 (float32) / 1e-6 (float64), re-assigned mid-run by set / swap) + "
+               "seeded history programs (value hooks and probe hooks on a float64 tensor whose OBJECT stays in place: forward "
+               "re-assigns / adds in place / adds through .data, the caller updates by set / swap / in-place copy / copy through "
+               ".data / write through a NumPy view; fault sequences: `fcall` = a module call during which a probe hook's body "
+               "raises, or the target holds no tensor so that the value hooks and forward raise, handled by the caller, after which "
+               "every hook is held to the same firing rule and post-conditions) + seeded integer programs (Clamping with "
+               "integer-valued and fractional bounds on int8/16/32/64, uint8 and bool targets); a "
                "case is non-trivial when at least one hook actually ran; distinct = distinct protocol text")
     zero_vector_dtype_probe(ex)
-    ex.samples = [exh[0], rnd[0], val[0], mag[0]]
+    ex.samples = [exh[0], rnd[0], val[0], mag[0], hist[0], ints[0]]
     ex.extra["post_condition_checks"] = dict(STATS)
     ex.extra["norm_checked_fibres_by_dtype_and_decade_of_norm_before"] = dict(sorted(NORM_DECADES.items()))
     ex.extra["streams"] = {"corpus": ncorpus, "exhaustive": len(exh), "random_programs": len(rnd), "value_programs": len(val),
-                           "magnitude_programs": len(mag)}
+                           "magnitude_programs": len(mag), "history_programs": len(hist), "integer_programs": len(ints)}
     return ex
 
 
